@@ -10,8 +10,8 @@ EXPLANATION = (
     "Decides five structural clauses, each necessary for the specified effect: E1 every hook/link write of a parent "
     "assignment is preceded by the identity test `stored parent is not new parent` (no-op when unchanged); E2 TreeError/"
     "LoopError refusals and children validation precede every effect of the call; E3 duplicate children are detected on "
-    "id() values; E4 sibling lists are edited only by identity-based removal and append-at-end (any other list operation "
-    "on a children list is reported); E5 children assignment detaches all former children before attaching, iterates the "
+    "id() values; E4 sibling lists are edited only by identity-based removal and append-at-end on the list as read after the last "
+    "user code ran (any other list operation on a children list, and an edit of a list read before a hook, is reported); E5 children assignment detaches all former children before attaching, iterates the "
     "validated tuple itself in order assigning child.parent = node, and the Node/AnyNode/SymlinkNode constructors delegate "
     "parent=/children= to the setters. Checked on all abstract traces of the entry points of both mixins. Not decided: "
     "that the resulting concrete forest equals the specification for every state, termination of the ancestor walk, "
@@ -41,6 +41,13 @@ def run(ctx):
             pr.rule = "E2"
         res.append(("E2 loop refusals precede attaches", n, probs))
         n, probs = ma.pair_problems(("E4",))
+        # a sibling list read before user code ran and edited afterwards: the node is appended to / removed from a dead
+        # list, so the assignment does not have its effect (shared with C01 W2, reported here as E4)
+        _, stale = ma.pair_problems(("W2",))
+        for pr, nm, tr in stale:
+            if "between list read and" in (pr.construct or ""):
+                pr.rule = "E4"
+                probs.append((pr, nm, tr))
         res.append(("E4 list edits", n, probs))
         n, probs = ma.children_assignment_order()
         res.append(("E5 children assignment order", n, probs))
